@@ -44,7 +44,7 @@ def legacy_claim_rule(ctx, program, rid):
             claims.append((tuple(a), dict(k)))
             return [(c, NONE)]
 
-        pol = FlowPolicy(program, may_raise_all=False, cancel=False, inline={"do_func_call"},
+        pol = FlowPolicy(program, may_raise_all=False, cancel=False, inline={"do_func_call", "trigger.py::TrigInfo.call_action.do_func_call"},
                          summaries={"AstEval": lambda i, n, a, k, c, o: [(c, ObjV("run_eval", "AstEval"))], "Function.install_ast_funcs": lambda i, n, a, k, c, o: [(c, NONE)],
                                     "Function.task_unique_factory": lambda i, n, a, k, c, o: [(c, FuncLike)], "task_unique_func": claimer,
                                     "Function.unique_name_used": lambda i, n, a, k, c, o: [(c, Const(False))],  # both same-instant triggers pass the pre-check
